@@ -1,5 +1,5 @@
 """C18 — event catalogue consistency (DESIGN section 4, C18)."""
-import os, re, struct
+import json, os, re, struct
 from hypothesis import strategies as st
 from vlib.runner import Part, Violation
 from vlib import gen, refmodel as R, trace as T, tools, evdoc
@@ -12,7 +12,7 @@ RULE = ("(1) ovnievents output equals doc/user/emulation/events.md (build date l
         "event of the 8 models is accepted by ovniemu -l inside a minimal legal context (recipe) with a payload "
         "of the declared shape, and ovnidump prints its description with %{arg}/%fmt{arg} replaced by generated "
         "argument values, computed by an independent formatter of the template language; (3) every unlisted "
-        "three-character code over the 95 printable characters (8 x 95 x 95 probes, exhaustive) is rejected, "
+        "three-character code over the 95 printable characters (8 x 95 x 95 codes, exhaustive; each without payload and with the well-formed payload and context of every listed event of the same category) is rejected, "
         "apart from OB? / OU? (value byte ignored) and the legacy code 6TC.  Non-trivial = listed event with "
         ">= 1 argument or unlisted code in an existing category; distinct = (model, code).")
 ASSUMPTIONS = ["legacy codes accepted with a warning: 6TC only (observed at the pinned commit); anything else accepted is reported",
@@ -276,6 +276,20 @@ def run_unlisted(case, ctx):
     req[name] = ver
     b = ctx.b("plain")
     cats = {d.mcv[1] for d in decls if d.model == m}
+    regs = R.regions()
+    # payload shapes of the listed events of this category: an unlisted sibling code
+    # must be refused with such a well-formed payload too (and in the sibling's context)
+    shapes = [("", [], {})]
+    seen = set()
+    for d in decls:
+        if d.model == m and d.mcv[1] == c and d.args and not d.jumbo:
+            pre, args, suf, extra = recipe(d.mcv, regs)
+            pl = encode_args(d, args if args is not None else gen_values(d, 0)).hex()
+            key = (len(pl), json.dumps(extra, sort_keys=True))
+            if key in seen:
+                continue
+            seen.add(key)
+            shapes.append((pl, pre, extra))
     n = 0
     for v in PRINTABLE:
         mcv = m + c + v
@@ -285,16 +299,29 @@ def run_unlisted(case, ctx):
             continue        # value byte ignored (documented exception)
         if mcv == "6TC":
             continue        # legacy, accepted with a warning
-        evs = [T.OHx(100, 0), T.plain(mcv, 110), T.plain("OHe", 120)]
-        dd = ctx.newdir()
-        try:
-            T.write_trace({"streams": [{"loom": "n.0", "pid": 1, "tid": 1, "app": 1, "cpus": [[0, 0]], "require": req, "events": evs}]}, dd)
-            r = tools.emu(b, dd, ())
-            if r.kind != "rejected":
-                raise Violation("unlisted code %r of model %s: %s" % (mcv, name, "accepted" if r.ok else r.brief()))
-        finally:
-            ctx.rmdir(dd)
-        n += 1
+        for (pl, pre, extra) in shapes:
+            clk = 100
+            evs = [T.OHx(clk, 0)]
+            for x in pre:
+                clk += 2
+                if isinstance(x, tuple):
+                    dx = bymcv[x[0]]
+                    px = encode_args(dx, x[1])
+                    evs.append(T.jumbo(x[0], clk, px) if dx.jumbo else T.ev(x[0], clk, px.hex()))
+                else:
+                    evs.append(T.plain(x, clk))
+            evs += [T.ev(mcv, clk + 2, pl), T.plain("OHe", clk + 4)]
+            dd = ctx.newdir()
+            try:
+                T.write_trace({"streams": [{"loom": "n.0", "pid": 1, "tid": 1, "app": 1, "cpus": [[0, 0], [1, 1]], "require": req,
+                                            "events": evs, "extra": extra}]}, dd)
+                r = tools.emu(b, dd, ())
+                if r.kind != "rejected":
+                    raise Violation("unlisted code %r of model %s (payload %s, context %s): %s" % (
+                        mcv, name, pl or "none", [e[0] for e in evs], "accepted" if r.ok else r.brief()))
+            finally:
+                ctx.rmdir(dd)
+            n += 1
     ctx.stats.extra["unlisted_probes"] = ctx.stats.extra.get("unlisted_probes", 0) + n
     return {"nt": c in cats, "cls": ["unlisted:" + m], "key": m + c}
 
